@@ -188,6 +188,32 @@ func runC03(c Case, m *Model) (v Verdict) {
 			v.Tags = append(v.Tags, "WriteFile")
 		}
 	}
+	// oracle 5: the value keeps being usable: a track added after a write, written again, is again a strict file of what
+	// the value now holds (header count and chunks agree)
+	if hk%2 == 0 && len(v.Oracle) == 0 {
+		var extra smf.Track
+		extra.Add(uint32(hk%97), []byte{0x90 | byte(hk%16), 60, 100})
+		extra.Close(0)
+		var w4 bytes.Buffer
+		var aerr, werr4 error
+		var size4 int64
+		if p := try(func() {
+			aerr = s.Add(extra)
+			if aerr == nil {
+				size4, werr4 = s.WriteTo(&w4)
+			}
+		}); p != "" {
+			v.Oracle = append(v.Oracle, "panic when a track is added after a write and the value written again: "+p)
+		} else if aerr == nil && werr4 == nil {
+			if sp := fields(m.Ask("strict.parse " + hx(w4.Bytes())))["s"]; sp != "ok:"+showSMF(s) {
+				v.Oracle = append(v.Oracle, "written, one track added, written again: strict parser says "+short(sp)+" ; the value holds "+short(showSMF(s)))
+			}
+			if size4 != int64(w4.Len()) {
+				v.Oracle = append(v.Oracle, fmt.Sprintf("second write: reported size %d, bytes emitted %d", size4, w4.Len()))
+			}
+			v.Tags = append(v.Tags, "write-add-write")
+		}
+	}
 	// tie: byte-exact
 	if mf["w"] != hx(w.Bytes()) {
 		v.Mismatch = append(v.Mismatch, "bytes differ: model "+short(mf["w"])+" impl "+short(hx(w.Bytes())))
